@@ -7,6 +7,7 @@ package interp
 
 import (
 	"fmt"
+	"go/token"
 	"go/types"
 	"runtime"
 
@@ -36,12 +37,14 @@ type scheduler struct {
 	preemptions int
 	nextChanID int
 	yields int
+	yieldAtLocks bool  // mutex operations are scheduling points (explore mode)
+	log    []int       // chosen thread id at every scheduling point (explore mode), for native replay
 }
 
 var S *scheduler
 
 func newScheduler() *scheduler {
-	s := &scheduler{preemptBound: -1}
+	s := &scheduler{preemptBound: -1, yieldAtLocks: true}
 	main := &gthread{id: 0, wake: make(chan struct{}, 1)}
 	main.vc = vclock{0: 1}
 	s.threads = []*gthread{main}
@@ -154,6 +157,9 @@ func (s *scheduler) block(ready func() bool, what string) {
 			panic(pathEnd{"deadlock", "all goroutines are blocked:" + desc})
 		}
 		n := s.pick(g, r, what, false)
+		if s.explore {
+			s.log = append(s.log, n.id)
+		}
 		if n == g {
 			break
 		}
@@ -171,13 +177,18 @@ func (s *scheduler) yield(site string) {
 	if !s.explore {
 		return
 	}
+	if len(s.threads) <= 1 {
+		return
+	}
 	s.yields++
 	g := s.cur
 	r := s.runnable()
 	if len(r) <= 1 {
+		s.log = append(s.log, g.id)
 		return
 	}
 	n := s.pick(g, r, site, true)
+	s.log = append(s.log, n.id)
 	if n != g {
 		s.switchTo(g, n)
 	}
@@ -185,6 +196,10 @@ func (s *scheduler) yield(site string) {
 
 // spawn starts a new interpreted goroutine.
 func spawn(fr *frame, instr *ssa.Go, fn value, args []value) {
+	spawnAt(fr, instr.Pos(), fn, args)
+}
+
+func spawnAt(fr *frame, pos token.Pos, fn value, args []value) {
 	s := S
 	g := &gthread{id: len(s.threads), wake: make(chan struct{}, 1)}
 	parent := s.cur
@@ -193,7 +208,6 @@ func spawn(fr *frame, instr *ssa.Go, fn value, args []value) {
 	parent.vc[parent.id]++
 	s.threads = append(s.threads, g)
 	i := fr.i
-	pos := instr.Pos()
 	go func() {
 		defer func() {
 			p := recover()
@@ -232,6 +246,9 @@ func spawn(fr *frame, instr *ssa.Go, fn value, args []value) {
 				return
 			}
 			n := s.pick(nil, r, "exit", false)
+			if s.explore {
+				s.log = append(s.log, n.id)
+			}
 			s.cur = n
 			n.wake <- struct{}{}
 		}()
